@@ -1757,4 +1757,121 @@ check_subset(const shared_ptr<ProjDataInfo>& d, const ProjDataInfo& f, const std
   return diff_subset(sub, f, views, o);
 }
 
+// ---- (v) the harness's OWN statement of the segments of construct_proj_data_info(span, max_delta) (+ the trim of the case) ---------
+// (domain audit, DESIGN 12.8: the ring differences "covered" by a segment were read from get_min/max_ring_difference of the object
+// under test in C01 clause 4 and in C12's own Michelogram, i.e. an oracle input taken from the code.)  Documented definition
+// (ProjDataInfo.h, construct_proj_data_info: "span is used to denote the amount of axial compression ... Siemens/CTI odd span ...
+// GE: segment 0 has span 3, while other segments have span 2. We call this span 2. As a generalisation any even span"; STIR glossary;
+// the warning text of ProjDataInfoCTI: a 'smaller' last segment is kept up to max_delta):
+//   segment 0 covers the ring differences -h0..h0 with h0 = (span-1)/2 (odd span) or span/2 (even span: span+1 ring differences),
+//   segment s>0 the next span ring differences h0+1+(s-1)span .. h0+s span, cut at max_delta (it exists iff its first ring difference
+//   is <= max_delta), segment -s the negated ring differences of segment s; reduce_segment_range(min,max) of the trim keeps min..max.
+// Not stated for even span with max_delta < span/2 (segment 0 itself is cut, on the positive side only, by the implementation: the
+// quirk PdiOpts::allow_clamped_seg0 generates on purpose; returns false).
+struct OwnSegments
+{
+  int min_seg = 0, max_seg = 0;
+  std::map<int, std::pair<int, int>> rd; //!< segment -> (min ring difference, max ring difference)
+  bool covers(int ring_diff) const
+  {
+    for (auto& kv : rd)
+      if (kv.second.first <= ring_diff && ring_diff <= kv.second.second)
+        return true;
+    return false;
+  }
+};
+inline bool
+own_segments(OwnSegments& o, const json& spec)
+{
+  const int span = spec["span"].get<int>(), max_delta = spec["max_delta"].get<int>();
+  const int h0 = span % 2 == 1 ? (span - 1) / 2 : span / 2;
+  if (max_delta < h0)
+    return false;
+  int J = 0;
+  while (h0 + 1 + J * span <= max_delta)
+    ++J;
+  int lo = -J, hi = J;
+  const json trim = spec.contains("trim") ? spec["trim"] : json::object();
+  if (trim.contains("max_seg"))
+    { // (the clamping of vg::make_pdi / apply_trim, on the harness's own J)
+      hi = std::min(trim["max_seg"].get<int>(), J);
+      lo = trim.contains("min_seg") ? std::max(trim["min_seg"].get<int>(), -J) : -hi;
+    }
+  o.min_seg = lo;
+  o.max_seg = hi;
+  o.rd.clear();
+  for (int s = lo; s <= hi; ++s)
+    {
+      const int a = std::abs(s);
+      int dlo = a == 0 ? -h0 : h0 + 1 + (a - 1) * span, dhi = a == 0 ? h0 : std::min(h0 + a * span, max_delta);
+      o.rd[s] = s >= 0 ? std::make_pair(dlo, dhi) : std::make_pair(-dhi, -dlo);
+    }
+  return true;
+}
+//! the segments an object constructed from \a spec reports == the harness's own statement
+inline Result
+check_own_segments(const ProjDataInfo& p, const json& spec)
+{
+  const ProjDataInfoCylindrical* pc = dynamic_cast<const ProjDataInfoCylindrical*>(&p);
+  OwnSegments o;
+  if (!pc)
+    return Result::pass();
+  if (!own_segments(o, spec))
+    {
+      stats().count("own segment table: not stated (segment 0 itself cut by max_delta)");
+      return Result::pass();
+    }
+  VF_CHECK(p.get_min_segment_num() == o.min_seg && p.get_max_segment_num() == o.max_seg, "span ", spec["span"].get<int>(), " max ring difference ",
+           spec["max_delta"].get<int>(), " trim ", spec.value("trim", json::object()).dump(), ": segments ", p.get_min_segment_num(), "..", p.get_max_segment_num(),
+           " but the definition of span gives ", o.min_seg, "..", o.max_seg);
+  for (auto& kv : o.rd)
+    VF_CHECK(pc->get_min_ring_difference(kv.first) == kv.second.first && pc->get_max_ring_difference(kv.first) == kv.second.second, "span ",
+             spec["span"].get<int>(), " max ring difference ", spec["max_delta"].get<int>(), ": segment ", kv.first, " reports the ring differences ",
+             pc->get_min_ring_difference(kv.first), "..", pc->get_max_ring_difference(kv.first), " but the definition of span gives ", kv.second.first, "..",
+             kv.second.second);
+  stats().count("own segment table: segments compared", long(o.rd.size()));
+  return Result::pass();
+}
+
+//! The remaining index ranges of a freshly constructed object, stated from the parameters of the case (they decide which clauses run
+//! in C01: odd TOF mashing -> fibres, no mashing -> mutual inverses; the code's own getters were used for that).  Documented in
+//! ProjDataInfo.h: num_views / num_tangential_poss / tof_mash_factor arguments of construct_proj_data_info ("TOF mash factor = 0 will
+//! produce nonTOF data"), set_num_tangential_poss ("min_tangential_pos_num = -(num_tang_poss/2)"), set_tof_mash_factor (number of TOF
+//! bins = max_num_timing_poss / factor, centred); view mashing factor = (detectors per ring / 2) / num_views (ProjDataInfoCylindrical).
+inline Result
+check_own_sampling(const ProjDataInfo& p, const Scanner& sc, const json& spec)
+{
+  const int views = spec["views"].get<int>(), tang = spec["tang"].get<int>(), tofm = spec["tof_mash"].get<int>();
+  VF_CHECK(p.get_num_views() == views && p.get_min_view_num() == 0 && p.get_max_view_num() == views - 1, "constructed with ", views, " views but reports ",
+           p.get_min_view_num(), "..", p.get_max_view_num());
+  if (const ProjDataInfoCylindrical* pc = dynamic_cast<const ProjDataInfoCylindrical*>(&p))
+    if (sc.get_scanner_geometry() == "Cylindrical")
+      VF_CHECK(pc->get_view_mashing_factor() == sc.get_num_detectors_per_ring() / 2 / views, "view mashing factor ", pc->get_view_mashing_factor(), " for ",
+               sc.get_num_detectors_per_ring(), " detectors per ring and ", views, " views");
+  int tmin = -(tang / 2), tmax = tmin + tang - 1;
+  const json trim = spec.contains("trim") ? spec["trim"] : json::object();
+  if (trim.contains("max_seg") && trim.value("tang_cut", 0) > 0 && tang > 2 * trim.value("tang_cut", 0) + 1)
+    {
+      tmin += trim.value("tang_cut", 0);
+      tmax -= trim.value("tang_cut", 0);
+    }
+  VF_CHECK(p.get_min_tangential_pos_num() == tmin && p.get_max_tangential_pos_num() == tmax && p.get_num_tangential_poss() == tmax - tmin + 1, "constructed with ", tang,
+           " tangential positions (trim ", trim.dump(), ") but reports ", p.get_min_tangential_pos_num(), "..", p.get_max_tangential_pos_num());
+  const bool tof = tofm > 0 && sc.is_tof_ready();
+  VF_CHECK(p.is_tof_data() == tof, "TOF mashing factor ", tofm, " on a scanner with ", sc.get_max_num_timing_poss(), " timing positions: is_tof_data() = ", p.is_tof_data());
+  if (tof)
+    {
+      const int n = sc.get_max_num_timing_poss() / tofm;
+      VF_CHECK(p.get_tof_mash_factor() == tofm && p.get_num_tof_poss() == n && p.get_min_tof_pos_num() == -(n / 2) && p.get_max_tof_pos_num() == -(n / 2) + n - 1,
+               "TOF mashing factor ", tofm, " of ", sc.get_max_num_timing_poss(), " timing positions: reports factor ", p.get_tof_mash_factor(), ", TOF bins ",
+               p.get_min_tof_pos_num(), "..", p.get_max_tof_pos_num());
+    }
+  else
+    VF_CHECK(p.get_num_tof_poss() == 1 && p.get_min_tof_pos_num() == 0 && p.get_max_tof_pos_num() == 0, "non-TOF data report TOF bins ", p.get_min_tof_pos_num(), "..",
+             p.get_max_tof_pos_num());
+  return Result::pass();
+}
+
 } // namespace vh
+
+
